@@ -79,6 +79,28 @@ CLAIMED = {
         "block_diag/lazify/densify/no_dispatch are covered through C01's kernels; exact arithmetic.",
    technique="contract-stubbed proxy execution of rule bodies and operator methods; error clauses as exceptional postconditions; z3/cvc5",
    engine="ALG"),
+ "C08": dict(
+   category="proof",
+   text="Rule level: every rule of diag and trace (live table) returns the k-th diagonal / trace of the represented matrix for symbolic k "
+        "(-n<k<n) and k=0, or refuses with an AssertionError; the generic rule reaches the exact algorithm (Exact.__call__ contract) and the "
+        "automatic default reaches no stochastic estimator in the regime where its documented heuristic selects the exact algorithm.",
+   design_ref="4.8",
+   note="Exact.__call__/exact_diag is a contract at rule level (its chunked loop body: index engine, when built); Hutch/HutchPP are outside "
+        "'exact'; Auto beyond n>=316228 is a listed known finding; BlockDiag multiplicities are enumerated concretely (the rule repeats Python lists).",
+   technique="contract-stubbed proxy execution; diagonal/trace lemmas (diag of kron/kronsum/blockdiag, linearity); z3/cvc5",
+   engine="ALG"),
+ "C09": dict(
+   category="proof",
+   text="Every rule of apply_unary/exp/log/sqrt/isqrt/pow (live table) returns an operator with M(r) = f(M(A)): dense Eigh/Eig paths through the "
+        "eigendecomposition contracts and the defining lemma f(VDV^-1)=V f(D) V^-1, structural rules (Diagonal, BlockDiag, Identity, ScalarMul, "
+        "Transpose, Adjoint, exp(KronSum), pow(Kronecker)), integer powers as repeated products, power -1 as inv with the algorithm translation, "
+        "exponents {-2,-1,-0.5,0,0.5,1,2,3,9,10,2.5}, exp and an opaque user function.",
+   design_ref="4.9",
+   note="Krylov paths (LanczosUnary/ArnoldiUnary) are given their idealised meaning at full Krylov dimension (exactness ASSUMED); matrix-function "
+        "lemmas for non-normal matrices and principal-branch power laws are ASSUMED with citation; pow(Kronecker, non-integer) assumes PSD factors; "
+        "the Adjoint rule for non-conjugate-symmetric user f is a listed known finding.",
+   technique="contract-stubbed proxy execution; primary-matrix-function lemmas; z3/cvc5",
+   engine="ALG"),
 }
 
 NOT_YET = "check not built yet in this session (framework under construction; see DESIGN.md section 10 for the order of work)"
